@@ -1097,6 +1097,15 @@ func (g *Gen) goalTx() []string {
 		hours := np.MinSubscriptionHours + int64(g.pick(3))
 		return []string{"node_subscribe", g.ta('a', pa.Bytes()).Tok(), g.ta('n', na).Tok(), "0", fmt.Sprint(hours), "1"}
 	}
+	// the provider cancels a lease whose hours are all paid (the payout is exhausted but the lease still runs)
+	if g.chance(0.12) {
+		for _, n := range linked {
+			if po, ok := vk.Subscription.GetLatestPayoutForAccountByNode(ctx, pa.Bytes(), n.GetAddress()); ok && (po.Hours == 0 || g.chance(0.3)) {
+				g.stats["gen.goal.lease_cancel"]++
+				return []string{"sub_cancel", g.ta('a', pa.Bytes()).Tok(), fmt.Sprint(po.ID)}
+			}
+		}
+	}
 	// an active subscription to this plan
 	var psub *subscriptiontypes.PlanSubscription
 	for _, sb := range vk.Subscription.GetSubscriptions(ctx) {
@@ -1139,7 +1148,11 @@ func (g *Gen) goalTx() []string {
 		ss, found := vk.Session.GetLatestSessionForAllocation(ctx, psub.ID, ad)
 		switch {
 		case (!found || ss.Status != hubtypes.StatusActive) && al.UtilisedBytes.LT(al.GrantedBytes) && g.chance(0.7):
-			return []string{"sess_start", g.ta('a', ad).Tok(), fmt.Sprint(psub.ID), g.ta('n', served).Tok()}
+			nd := served
+			if len(linked) > 0 && g.chance(0.25) {
+				nd = linked[g.pick(len(linked))].GetAddress().Bytes() // linked, whatever its lease
+			}
+			return []string{"sess_start", g.ta('a', ad).Tok(), fmt.Sprint(psub.ID), g.ta('n', nd).Tok()}
 		case found && ss.Status == hubtypes.StatusActive && ss.Bandwidth.Sum().IsZero():
 			free := bsub(al.GrantedBytes.BigInt(), al.UtilisedBytes.BigInt())
 			up := g.oneOf(new(big.Int).Rsh(free, 1), new(big.Int).Rsh(free, 2), free, badd(free, big.NewInt(1)), big.NewInt(1), big.NewInt(1000003))
